@@ -214,10 +214,10 @@ func helpOutput(c *HelpCase) (string, Outcome) {
 		if out2.Panic != "" {
 			out.Panic = "second rendering: " + out2.Panic
 		} else {
-			out.Raw = map[string][]string{"second": {out2.Stderr}}
+			out.Raw = map[string][]string{"second": {out2.All}}
 		}
 	}
-	return out.Stderr, out
+	return out.All, out
 }
 
 func optAnchor(names []string) []string {
@@ -349,7 +349,14 @@ func checkHelpText(c *HelpCase, text string, st *Stats, book bool) *Violation {
 		return v
 	}
 	marker := pos < len(ws) && ws[pos] == "COMMAND"
-	if marker != (len(c.Subs) > 0) {
+	visible := 0
+	for _, s := range c.Subs {
+		if !s.Hidden {
+			visible++
+		}
+	}
+	if marker != (len(c.Subs) > 0) && !(len(c.Subs) > 0 && visible == 0) {
+		// (a command whose sub commands are all hidden may or may not advertise them: not asserted)
 		return fail("COMMAND marker present=%v but the command has %d subcommands", marker, len(c.Subs))
 	}
 	find := func(from int, pred func(string) bool) int {
@@ -375,22 +382,28 @@ func checkHelpText(c *HelpCase, text string, st *Stats, book bool) *Violation {
 	}
 	// rows: arguments in declaration order, then options in declaration order, then non-hidden commands
 	type rowInfo struct {
-		start     int
-		noDefault bool
-		what      string
+		start  int
+		forbid []string // words of a hidden default: they must not show up in the row
+		what   string
 	}
 	var rows []rowInfo
-	row := func(anchor []string, needs []string, what string, noDefault bool) *Violation {
+	row := func(anchor []string, needs []string, what string, forbid []string) *Violation {
 		s := -1
-		for i := pos; i < len(ws); i++ {
-			ok := true
-			for j, n := range anchor {
+		matchAt := func(i int, names []string) bool {
+			for j, n := range names {
 				if i+j >= len(ws) || strings.TrimSuffix(ws[i+j], ",") != n {
-					ok = false
-					break
+					return false
 				}
 			}
-			if ok {
+			return true
+		}
+		rev := append([]string{}, anchor...)
+		for a, b := 0, len(rev)-1; a < b; a, b = a+1, b-1 {
+			rev[a], rev[b] = rev[b], rev[a]
+		}
+		for i := pos; i < len(ws); i++ {
+			// the names stand together; which of them comes first is layout
+			if matchAt(i, anchor) || matchAt(i, rev) {
 				s = i
 				break
 			}
@@ -401,7 +414,7 @@ func checkHelpText(c *HelpCase, text string, st *Stats, book bool) *Violation {
 		for j := range anchor {
 			used[s+j] = true
 		}
-		rows = append(rows, rowInfo{s, noDefault, what})
+		rows = append(rows, rowInfo{s, forbid, what})
 		p := s + len(anchor)
 		for _, w := range needs {
 			q := find(p, func(x string) bool { return strings.Contains(x, w) })
@@ -420,15 +433,15 @@ func checkHelpText(c *HelpCase, text string, st *Stats, book bool) *Violation {
 			anchor = optAnchor(it.Names)
 		}
 		needs := strings.Fields(it.Desc)
-		for _, e := range it.Envs {
-			needs = append(needs, "$"+e)
-		}
-		dw, unasserted := defaultWords(it)
+		needs = append(needs, it.Envs...) // the names; how they are decorated ("$NAME") is layout
+		dw, _ := defaultWords(it)
+		var forbid []string
 		if !it.Hide {
 			needs = append(needs, dw...)
+		} else {
+			forbid = dw
 		}
-		noDefault := it.Hide || (len(dw) == 0 && !unasserted)
-		return row(anchor, needs, fmt.Sprintf("item %v", it.Names), noDefault)
+		return row(anchor, needs, fmt.Sprintf("item %v", it.Names), forbid)
 	}
 	for i := range c.Items {
 		if c.Items[i].IsArg {
@@ -448,20 +461,21 @@ func checkHelpText(c *HelpCase, text string, st *Stats, book bool) *Violation {
 		if s.Hidden {
 			continue
 		}
-		if v := row(s.Aliases, strings.Fields(s.Desc), fmt.Sprintf("subcommand %v", s.Aliases), true); v != nil {
+		if v := row(s.Aliases, strings.Fields(s.Desc), fmt.Sprintf("subcommand %v", s.Aliases), nil); v != nil {
 			return v
 		}
 	}
-	// a hidden or empty default must not be shown in the item's row
+	// the default of a hidden value must not be shown in the item's row (how a shown default is decorated is layout: only
+	// the value itself is looked for; the generated defaults are distinctive words and numbers)
 	for i, r := range rows {
 		end := len(ws)
 		if i+1 < len(rows) {
 			end = rows[i+1].start
 		}
-		if r.noDefault {
+		for _, f := range r.forbid {
 			for _, w := range ws[r.start:end] {
-				if strings.Contains(w, "(default") {
-					return fail("%s: a default is shown although the value is hidden or the default is empty", r.what)
+				if strings.Contains(w, f) {
+					return fail("%s: its value is hidden, yet its default %q is shown (%q)", r.what, f, w)
 				}
 			}
 		}
@@ -603,7 +617,7 @@ func GenHelpCase(t *rapid.T) *HelpCase {
 			mkEnvs(it, func() string { return "77.25" })
 		}
 		it.Hide = chance(t, 1, 3, "hide")
-		it.EnvSep = rapid.SampledFrom([]string{"", "", "", "\t", "\n", "  ", " \t "}).Draw(t, "envsep")
+		it.EnvSep = "" // documented: a space separated list
 	}
 	na := rapid.IntRange(0, 4).Draw(t, "nargs")
 	no := rapid.IntRange(0, 5).Draw(t, "nopts")
@@ -613,7 +627,7 @@ func GenHelpCase(t *rapid.T) *HelpCase {
 	letters := rapid.Permutation([]string{"a", "b", "c", "d", "e", "f", "g", "i", "j", "k", "m", "n", "A", "B", "C"}).Draw(t, "letters")
 	li := 0
 	nonASCII := 0
-	nonASCIINames := []string{"é", "ü", "ñ", "ß", "ø", "å"}
+	nonASCIINames := []string{"éa", "üb", "ñc", "ßd", "øe", "åf"}
 	for _, idx := range order {
 		if idx < na {
 			it := HItem{IsArg: true, Names: []string{fmt.Sprintf("QARG%d", ai)}, Desc: mkDesc()}
@@ -628,7 +642,7 @@ func GenHelpCase(t *rapid.T) *HelpCase {
 				it.Names = append(it.Names, letters[li])
 				li++
 			} else if nonASCII < len(nonASCIINames) && chance(t, 1, 10, "nonascii") {
-				// one character, two bytes: by the library's rule (more than one byte) a long name
+				// not ASCII, two letters: a long name whether letters are counted in bytes or in characters
 				it.Names = append(it.Names, nonASCIINames[nonASCII])
 				nonASCII++
 			} else {
